@@ -30,10 +30,27 @@ func withBuf(visHex, tailHex string, f func(b []byte) string) string {
 	buf = append(buf, v...)
 	buf = append(buf, t...)
 	snap := append([]byte(nil), buf...)
+	mark := len(heldVals)
 	r := f(buf[:len(v):len(v)+len(t)])
 	for i := range snap {
 		if snap[i] != buf[i] {
 			return "MUTATED-INPUT:" + r
+		}
+	}
+	// the caller reuses its buffer: what was handed out must not change with it
+	if len(heldVals) > mark {
+		for i := range buf {
+			buf[i] = ^buf[i]
+		}
+		bad := false
+		for _, h := range heldVals[mark:] {
+			if canonRaw(h.v) != h.s {
+				bad = true
+			}
+		}
+		copy(buf, snap)
+		if bad {
+			return "ALIASES-INPUT:" + r
 		}
 	}
 	return r
@@ -56,8 +73,25 @@ func cBool(b bool) string   { return fmt.Sprintf("%t", b) }
 func cStr(s string) string  { return "s:" + hex.EncodeToString([]byte(s)) }
 func cBytes(b []byte) string { return "y:" + hex.EncodeToString(b) }
 
-// canon renders a dynamically typed pgread value.
+// canon renders a dynamically typed pgread value.  Every value rendered at top level during a case is also HELD with its
+// rendering (heldVals): withBuf re-renders the held values after overwriting the input buffer (a result that still points
+// into the caller's buffer changes: seeded changes C06-16, C07-16), and the case runner re-renders the values of the
+// previous case after the current one ran and then scribbles over them the way a caller may (main.go).
+type heldVal struct {
+	v interface{}
+	s string
+}
+
+var heldVals []heldVal
+var canonDepth int
+
 func canon(v interface{}) string {
+	s := canonRaw(v)
+	heldVals = append(heldVals, heldVal{v, s})
+	return s
+}
+
+func canonRaw(v interface{}) string {
 	switch x := v.(type) {
 	case nil:
 		return "nil"
@@ -93,7 +127,7 @@ func canon(v interface{}) string {
 		}
 		parts := make([]string, len(x))
 		for i, e := range x {
-			parts[i] = canon(e)
+			parts[i] = canonRaw(e)
 		}
 		return "l" + cList(parts)
 	case map[string]interface{}:
@@ -107,7 +141,7 @@ func canon(v interface{}) string {
 		sort.Strings(keys)
 		parts := make([]string, len(keys))
 		for i, k := range keys {
-			parts[i] = hex.EncodeToString([]byte(k)) + ":" + canon(x[k])
+			parts[i] = hex.EncodeToString([]byte(k)) + ":" + canonRaw(x[k])
 		}
 		return "m{" + strings.Join(parts, ",") + "}"
 	default:
